@@ -310,7 +310,7 @@ func onResourceRuleUpdate(res string, rawResRules []*Rule) (err error) {
 	oldResCbs = append(oldResCbs, breakers[res]...)
 	updateMux.RUnlock()
 
-	newCbsOfRes := BuildResourceCircuitBreaker(res, rawResRules, oldResCbs)
+	newCbsOfRes := BuildResourceCircuitBreaker(res, validResRules, oldResCbs)
 
 	updateMux.Lock()
 	if len(newCbsOfRes) == 0 {
